@@ -314,7 +314,10 @@ fn leaf_goal(s: &mut dyn Src, cx: &GenCtx, m: &mut Mode) -> Goal {
                         fmt.push_str(pick(s, &[">", ";", ""]));
                         if fmt.is_empty() { fmt.push('.'); }
                         let mut args = vec![Term::Atom(fmt)];
-                        for _ in 0..k { args.push(ground_operand(s, m)); }
+                        // usually as many arguments as markers; sometimes more (they are appended, as the repository's
+                        // own test_format_for_print_pred shows) or fewer (an unfilled marker is replaced by nothing)
+                        let nargs = match weighted(s, &[6, 1, 1]) { 0 => k, 1 => k + 1 + s.draw(2) as usize, _ => k.saturating_sub(1 + s.draw(2) as usize) };
+                        for _ in 0..nargs { args.push(ground_operand(s, m)); }
                         Goal::BuiltIn("print".into(), args)
                     } else {
                         let mut args = vec![Term::atom(pick(s, &["p", "q:", "#"]))];
